@@ -70,6 +70,18 @@ def generate(ck):
     # grids that let the profile relax completely: fixed so that the quick tier does not depend on the draw
     for fam_, grid_ in (("zlin", {"family": "uniform", "nt": 300, "t_end": 200.0, "seed": 0}), ("falling", {"family": "huge-steps", "nt": 6, "t_end": 1.0, "seed": 3}), ("ideal", {"family": "quadratic", "nt": 200, "t_end": 50.0, "seed": 0})):
         descs.append({"cls": "single", "nx": 30, "table": {"kind": "synthetic", "family": fam_, "prm": [0.4, 0.4, 0.5], "n": 200, "p_lo": 100.0, "p_hi": 9100.0, "grid": "uniform", "seed": 0, "datum": 0.45}, "p_i": 7000.0, "p_f": 1500.0, "alpha_branch": False, "schedule": None, "grid": grid_, "relax": "datum"})
+    # two long runs of one shape, both kept by the caller (a drawdown comparison over decades of daily
+    # stamps): what the caller reads from the first one after the second has run is judged again.
+    # Sizes straddle 2^21, 2^23 and 2^24 stored values - wherever storage might change hands
+    shapes = [(64, 33000)] if ck.tier == "quick" else [(64, 33000), (200, 12000), (1001, 2200), (30, 300000), (25, 700000)]
+    for k, (nx_, nt_) in enumerate(shapes):
+        pair = []
+        for p_f_ in (4000.0, 500.0):
+            if k % 2 == 0:
+                pair.append({"cls": "single", "nx": nx_, "table": {"kind": "shipped", "name": "pvt_gas"}, "p_i": 8000.0, "p_f": p_f_, "alpha_branch": False, "schedule": None, "reused": False, "grid": {"family": "quadratic", "nt": nt_, "t_end": 400.0, "seed": 0}})
+            else:
+                pair.append({"cls": "ideal", "nx": nx_, "p_i": 8000.0, "p_f": p_f_, "reused": False, "grid": {"family": "quadratic", "nt": nt_, "t_end": 400.0, "seed": 0}})
+        descs.append({"kind": "twins", "runs": pair})
     for i in range(n):
         d = sim.random_sim_desc(rng, ck.tier, twophase_share=0.08)
         if i % 5 == 0:
@@ -125,9 +137,40 @@ def _threads_case(ck, desc):
     return nontrivial, {"threads": len(built), "nx": desc["runs"][0]["nx"]}
 
 
+def _twins_case(ck, desc):
+    """Two (long) runs of one shape on two objects; the first one's values are read again after the second."""
+    import hashlib
+
+    kept = []
+    for d in desc["runs"]:
+        res, time, sched, fluid, _ = sim.build(d)
+        sim.SIM_EVENTS.clear()
+        sim.simulate(res, time, sched)
+        if len(sim.SIM_EVENTS) != 1:
+            ck.inconclusive_because(f"postcondition on simulate fired {len(sim.SIM_EVENTS)} times for one call")
+            return False, None
+        ev = sim.SIM_EVENTS.pop()
+        ck.count("contract_evaluations.simulate")
+        m_i, m_f = sim.frac_face_values(d, res, fluid, time, sched)
+        judge(ck, d, d["cls"], res, fluid, ev["time"], ev["pp"], sched, m_i, m_f)
+        kept.append((d, res, fluid, sched, m_i, m_f, np.array(ev["time"]), hashlib.sha256(np.ascontiguousarray(ev["pp"]).tobytes()).hexdigest(), ev["pp"].shape))
+        del ev
+    for k, (d, res, fluid, sched, m_i, m_f, t_seen, digest, shape) in enumerate(kept[:-1]):
+        now = np.asarray(res.pseudopressure)
+        same = now.shape == shape and hashlib.sha256(np.ascontiguousarray(now).tobytes()).hexdigest() == digest
+        ck.count("earlier_runs_read_again_after_a_later_run")
+        if not ck.margin("an earlier run's values are the same after a later run of the same shape", 0.0 if same else 1.0, 0.5):
+            ck.violation("values-of-an-earlier-run-kept", {"run": k, "shape": list(shape), "stored_values": int(shape[0] * shape[1])}, desc)
+            # what the caller reads now is judged by the ordinary oracle as well
+            judge(ck, d, d["cls"], res, fluid, t_seen, now, sched, m_i, m_f)
+    return True, {"shape": list(kept[0][-1]), "runs": len(kept)}
+
+
 def run_case(ck, desc):
     if desc.get("kind") == "threads":
         return _threads_case(ck, desc)
+    if desc.get("kind") == "twins":
+        return _twins_case(ck, desc)
     res, time, sched, fluid, _ = sim.build(desc)
     if fluid is not None and not np.all(np.asarray(fluid.pvt_props["alpha"], dtype=float) > 0):
         # the property's premise is a table with positive diffusivity (an arbitrary synthetic black-oil
